@@ -963,7 +963,8 @@ func genBoundary() []Input {
 	for _, f := range identFields {
 		for gi, vals := range [][]interface{}{f.good, f.bad} {
 			for _, v := range vals {
-				body, _ := json.Marshal(map[string]interface{}{f.name: v})
+				// feature_negotiation: the JSON answer then shows the values the daemon adopted
+				body, _ := json.Marshal(map[string]interface{}{f.name: v, "feature_negotiation": true})
 				add(fmt.Sprintf("IDENTIFY.%s=%v", f.name, v), cat([]byte("IDENTIFY\n"), be(int64(len(body))), body, onePub),
 					[][3]int64{{cIdentify, 0, b2i(gi == 0)}, {cPub, 1, 1}})
 			}
